@@ -279,6 +279,20 @@ fn record_case(src: &mut Src, ctx: &mut Ctx) -> Result<(), String> {
     // half the fields hold any in-range double, half a value of the kind these records hold in practice
     // (degrees, magnifications, unit sizes): whole and fractional, right angles and their neighbours
     let v: Vec<f64> = (0..4).map(|_| if src.bool() { random_double(src) } else { plausible_field(src) }).collect();
+    // the identity values, alone and together (a writer must not take them for "nothing to write")
+    let mut v = v;
+    if src.prob(1, 5) {
+        v[2] = 1.0;
+    }
+    if src.prob(1, 5) {
+        v[3] = 0.0;
+    }
+    if src.prob(1, 12) {
+        v[0] = 0.0;
+    }
+    if v[2] == 1.0 && v[3] == 0.0 {
+        ctx.label("MAG 1.0 together with ANGLE 0.0");
+    }
     if v[3].fract() != 0.0 && [90.0, 180.0, 270.0].contains(&v[3].trunc().abs()) {
         ctx.label("ANGLE: fractional value next to a right angle");
     }
@@ -365,6 +379,8 @@ fn run(run: &mut Run) {
     run.explore("random-doubles", n, 32 * 8, &random_case);
     run.explore("random-reals", n, 32 * 9, &random_real_case);
     run.explore("records", run.tier.pick(60_000, 1_000_000), 40, &record_case);
+    // the same, each case in a thread of its own (per-thread state of the code starts from scratch)
+    run.explore_fresh("records", run.tier.pick(3_000, 40_000), 40, &record_case);
 }
 
 fn case(sub: &str) -> Option<Box<CaseFn<'static>>> {
